@@ -40,8 +40,11 @@ PROPS = {
     "C11": _hist(4000, 150000, "frontends Solver and SolverCacheless; ops add/sat/eval/batch_eval/min/max/solution/"
                  "is_true/simplify/downsize/branch plus weak-cache and LRU evictions, solver reuse on/off; 85 % of the runs "
                  "use 2-8 bit variables with the enumeration reference, 15 % use 16-130 bit variables with an independent-Z3 "
-                 "reference (no mul/div there)",
-                 design_ref="DESIGN.md 5 C11", phases=[{"profile": "C11", "share": 0.85}, {"profile": "C11wide", "share": 0.15}]),
+                 "reference (no mul/div there), 8 % are string histories on SolverStrings / SolverCacheless (string variables "
+                 "with finite domains asserted on every new solver, so the enumeration reference stays exact; concat, replace, "
+                 "substr, contains, prefix, suffix, equality, If)",
+                 design_ref="DESIGN.md 5 C11", phases=[{"profile": "C11", "share": 0.78}, {"profile": "C11wide", "share": 0.14},
+                                                     {"profile": "C11str", "share": 0.08}]),
     "C12": _hist(3000, 100000, "SolverComposite with variable shapes whose constraints connect and disconnect child "
                  "solvers; branch (copy-on-write), simplify, split, combine, merge; 10 % of the runs with 16-130 bit variables "
                  "and an independent-Z3 reference", design_ref="DESIGN.md 5 C12",
@@ -49,7 +52,7 @@ PROPS = {
     "C14": _hist(3000, 80000, "trees of branched solvers of every exact frontend class, strictly interleaved ops, and "
                  "probe sweeps over the untouched handles after every mutating op; 10 % of the runs with 16-130 bit variables "
                  "and an independent-Z3 reference", design_ref="DESIGN.md 5 C14",
-                 phases=[{"profile": "C14", "share": 0.9}, {"profile": "C14wide", "share": 0.1}]),
+                 phases=[{"profile": "C14", "share": 0.84}, {"profile": "C14wide", "share": 0.1}, {"profile": "C14str", "share": 0.06}]),
     "C13": _hist(3000, 80000, "exact phase: SolverReplacement (default settings) and SolverHybrid (exact=None/True) against "
                  "the exact oracle, with histories biased to constraints that create replacements, contradicting/refining "
                  "adds, downsize, branch and pickling; approximate phase: SolverHybrid(exact=False / approximate_first), "
@@ -70,8 +73,9 @@ PROPS = {
                  "error, every later answer is checked exactly; a second phase injects random multi-fault plans across "
                  "whole histories; non-trivial = at least one injected fault actually fired",
                  design_ref="DESIGN.md 5 C17", level="fault_enumeration",
-                 phases=[{"profile": "C17", "share": 0.75}, {"profile": "C17multi", "share": 0.25}],
-                 phases_thorough=[{"profile": "C17all", "share": 0.75}, {"profile": "C17multi", "share": 0.25}], limit_s=240),
+                 phases=[{"profile": "C17", "share": 0.69}, {"profile": "C17multi", "share": 0.25}, {"profile": "C17str", "share": 0.06}],
+                 phases_thorough=[{"profile": "C17all", "share": 0.69}, {"profile": "C17multi", "share": 0.25},
+                                  {"profile": "C17str", "share": 0.06}], limit_s=240),
     "C18": _hist(2500, 60000, "histories on every frontend class with restarts as the crash model: in-process pickle round "
                  "trips that replace the solver or create a twin driven alongside it, expression round trips "
                  "(loads(dumps(e)) is e), and fresh-interpreter restarts (only the pickles survive; new process, other "
@@ -82,8 +86,8 @@ PROPS = {
                  "be identical objects exactly when structurally equal, evaluate to the same values, and come back as "
                  "the original objects when pickled again and loaded in the first process",
                  design_ref="DESIGN.md 5 C18",
-                 phases=[{"profile": "C18", "share": 0.66}, {"profile": "C18approx", "share": 0.2}, {"profile": "C18fresh", "share": 0.1},
-                         {"profile": "C18expr", "share": 0.04}]),
+                 phases=[{"profile": "C18", "share": 0.62}, {"profile": "C18approx", "share": 0.2}, {"profile": "C18fresh", "share": 0.1},
+                         {"profile": "C18expr", "share": 0.04}, {"profile": "C18str", "share": 0.04}]),
     "C26": {"engine": "values", "quick": 2000, "thorough": 60000, "limit_s": 90,
             "rule": "one case = one seeded history 'pin -> query -> query other expressions over the same variables' on "
                     "Solver / SolverComposite / SolverCacheless / SolverStrings over wide bit-vectors (1..130 bits), "
